@@ -250,10 +250,10 @@ ADDENDA = {
             "into the current scope; a type rebuilt by resolve_type()/substitute_decl() keeps every attribute (copy from *this, or "
             "every member carried)",
             "grammar-action rules; rebuild completeness over record fields"),
-    "C05": ("R05.4, R05.5; section 8",
+    "C05": ("R05.4, R05.5, R05.6; section 8",
             "base-class derivations are recorded only for accessible bases with upcast/downcast roles, flags and the virtual-base "
             "exclusion in place, wrapper parameters take their names from the loop's own element; every call recording a member of "
-            "the class is dominated by the virtual-function inference that sets SC_virtual on keyword-less overrides",
+            "the class is dominated by the virtual-function inference that sets SC_virtual on keyword-less overrides; an unspecified base access defaults from the deriving class's own class-key (found F-C05a)",
             "role pairing; call-graph must-pass-through"),
     "C06": ("R06.4, R06.5, R06.6; section 8",
             "keyword tokens round-trip grammar -> enumerator -> printer; rebuilt types/parameter lists keep every member (found F-C06b); "
